@@ -308,3 +308,55 @@ def k_save(ctx):
 PLAN["quick"]["harnesses"].append("C05.save-and-return")
 PLAN["thorough"]["harnesses"].append("C05.save-and-return")
 BOUNDS["quick"]["output naming"] = "_save_and_return with a single result, a bundle, a post-processor (also one returning None) and output=None; three time spans (year end, leap day across midnight, zero length)"
+
+
+# ---- Collocations.search: a complete, output-bound run of collocate_filesets -------------------------------
+import typhon.collocations.common as CC               # noqa: E402
+
+
+@harness("C05.search", cases=lambda tier: ["own-collocator", "given-collocator"],
+         expect=lambda c: ["search-is-a-complete-run-of-collocate_filesets-into-itself"])
+def k_search(ctx):
+    """Collocations.search(filesets, **kw) runs collocate_filesets(filesets, output=<the Collocations
+    object>, **kw) *to the end* (the search is a generator: a result that is not consumed is never
+    computed or written), for any number of yielded results."""
+    n = ctx.int("n_results", 0, 3)
+    n = n.__index__() if ctx.sym else n
+    seen = {"calls": [], "yielded": 0, "finished": False}
+
+    def fake(self, filesets, **kw):
+        seen["calls"].append((self, filesets, kw))
+
+        def gen():
+            for i in range(n):
+                seen["yielded"] += 1
+                yield "file-%d" % i
+            seen["finished"] = True
+        return gen()
+    mfs = ModelFS(ctx, max_faults=0)
+    target = CC.Collocations(path="/out/{year}{month}{day}{hour}{minute}{second}-{end_hour}{end_minute}{end_second}.nc")
+    target.file_system = ModelFSSpec(mfs)
+    fsets = [object(), object()]
+    given = CL.Collocator() if ctx.case == "given-collocator" else None
+    with patched((CL.Collocator, "collocate_filesets", fake)):
+        kw = {"start": "2020-01-01", "end": "2020-01-02", "processes": 2, "max_interval": "5 min", "max_distance": "5 km",
+              "bundle": "primary", "skip_file_errors": True}
+        if given is not None:
+            target.search(fsets, collocator=given, **kw)
+        else:
+            target.search(fsets, **kw)
+    tag = "search-is-a-complete-run-of-collocate_filesets-into-itself"
+    ctx.check(tag, len(seen["calls"]) == 1, detail="%d calls" % len(seen["calls"]))
+    if len(seen["calls"]) != 1:
+        return
+    who, fs, k = seen["calls"][0]
+    ctx.check(tag, fs is fsets and k.get("output") is target, detail="output=%r" % (k.get("output"),))
+    ctx.check(tag, {a: b for a, b in k.items() if a != "output"} == kw, detail="keyword arguments %r" % (k,))
+    ctx.check(tag, given is None or who is given, detail="another collocator was used")
+    ctx.check(tag, seen["yielded"] == n and seen["finished"], detail="consumed %d of %d results" % (seen["yielded"], n))
+
+
+PLAN["quick"]["harnesses"].append("C05.search")
+PLAN["thorough"]["harnesses"].append("C05.search")
+BOUNDS["quick"]["Collocations.search"] = "delegation to collocate_filesets (output = the Collocations object, all keyword arguments, own or given collocator), generator consumed completely for 0-3 results"
+OUTSIDE[:] = [o for o in OUTSIDE if not o.startswith("Collocations.search")] + ["reading back the written collocation files (NetCDF I/O)"]
